@@ -32,6 +32,7 @@ def shared_default(prog: Program, module_suffixes: List[str], floor: int) -> Rul
     r = RuleResult("SHARED-DEFAULT", "no default argument constructs an object that calls would share", floor=1)
     n = 0
     offenders = []
+    aliased = []
     for m in prog.modules.values():
         if not any(m.name.endswith(s) or (s.endswith(".") and (s in m.name + ".")) for s in module_suffixes):
             continue
@@ -47,8 +48,21 @@ def shared_default(prog: Program, module_suffixes: List[str], floor: int) -> Rul
                 for d in list(x.args.defaults) + [d for d in x.args.kw_defaults if d is not None]:
                     if _constructs(d):
                         offenders.append((None, d))
+        # one object under several keys / at several positions: dict.fromkeys(keys, <constructed>) and [<constructed>] * n evaluate the
+        # value once - what is recorded under one key is found under the other
+        for x in ast.walk(m.tree):
+            if isinstance(x, ast.Call) and isinstance(x.func, ast.Attribute) and x.func.attr == "fromkeys" and len(x.args) >= 2 and _constructs(x.args[1]):
+                aliased.append((m, x))
+            if isinstance(x, ast.BinOp) and isinstance(x.op, ast.Mult):
+                for side in (x.left, x.right):
+                    if isinstance(side, (ast.List, ast.Tuple)) and any(_constructs(e) for e in side.elts):
+                        aliased.append((m, x))
     if n < floor:
         raise AnalysisError(f"SHARED-DEFAULT: only {n} functions found in {module_suffixes}")
+    for m, x in aliased:
+        r.fail(f"{m.name.split('.')[-1]}#one-object-under-several-keys:{src(x)[:30]}", f"{m.relpath}:{x.lineno}", src(x)[:80],
+               f"`{src(x)[:60]}` evaluates the value once: every key (position) refers to the same object, so what is recorded under one is found under the others "
+               "(a de-duplication memory for false results shared with the one for true results swallows a later true result)")
     seen = set()
     for f, d in offenders:
         key = f"{f.short if f is not None else 'lambda'}#default:{src(d)[:30]}"
@@ -61,6 +75,6 @@ def shared_default(prog: Program, module_suffixes: List[str], floor: int) -> Rul
     # positive control: the detector flags the shapes it is about and lets constants through
     ctl = lambda t: _constructs(ast.parse(t, mode="eval").body)
     r.control_ok = ctl("JoinManager()") and ctl("[]") and ctl("{}") and ctl("(1, [])") and not ctl("None") and not ctl("(1, 2)") and not ctl("frozenset()") and not ctl("DEFAULT")
-    if not offenders:
+    if not offenders and not aliased:
         r.ok("module#no-constructed-defaults", "", f"{n} functions in {', '.join(module_suffixes)}", "every default is a constant")
     return r
